@@ -253,6 +253,28 @@ class Response:
         return None
 
 
+class _SinkBuffer:
+    @staticmethod
+    def write(data: bytes) -> int:
+        if not isinstance(data, (bytes, bytearray, memoryview)):
+            raise TypeError("a bytes-like object is required, not %r" % type(data).__name__)
+        return len(data)
+
+    @staticmethod
+    def flush() -> None:
+        pass
+
+
+class _SinkStdout:
+    buffer = _SinkBuffer
+
+
+class _SinkSys:
+    """What pygopherd.logger sees as `sys`: a stdout whose bytes go nowhere."""
+    stdout = _SinkStdout
+    stderr = sys.stderr
+
+
 class Site:
     """One configuration + one real server object (never listening for clients:
     connections are handed to process_request_thread directly)."""
@@ -293,9 +315,20 @@ class Site:
         _install_protocol_recorder()
 
     def _install_logger(self) -> None:
+        """Every log line is recorded, and then goes through the repository's own log function for
+        the configured method (its formatting/encoding code runs as in the real server); only the
+        final sink is replaced: log_file writes to a discarding stdout, log_syslog to a stand-in
+        for syslog.syslog that, like it, accepts only text encodable as UTF-8."""
+        method = self.config.get("logger", "logmethod")
+        logger.sys = _SinkSys
+        logger.syslogfunc = lambda prio, msg: msg.encode("utf-8") and None
+        logger.priority = 6
+        real = {"file": logger.log_file, "syslog": logger.log_syslog}.get(method, logger.log_none)
+
         def rec(message: str) -> None:
             with self._loglock:
                 self._log.append(message)
+            real(message)
 
         logger.log = rec
 
